@@ -6,6 +6,21 @@
 namespace vf
 {
 
+struct EncCall
+{
+    uint8_t version{1};
+    uint32_t minB{0};
+    uint32_t maxB{1500};
+    std::vector<PacketRecipe> packets;
+    void io(Ar& a)
+    {
+        a.num("version", version);
+        a.num("minB", minB);
+        a.num("maxB", maxB);
+        a.vec("packets", packets);
+    }
+};
+
 struct EncCase
 {
     uint16_t dev{0};
@@ -14,6 +29,7 @@ struct EncCase
     uint32_t minB{0};
     uint32_t maxB{1500};
     std::vector<PacketRecipe> packets;
+    std::vector<EncCall> prior;  // earlier encode calls on the same encoder object (C01 / C07 / C08: "every batch" is not only the first one)
 
     void io(Ar& a)
     {
@@ -23,6 +39,7 @@ struct EncCase
         a.num("minB", minB);
         a.num("maxB", maxB);
         a.vec("packets", packets);
+        a.optionalVec("prior", prior);
     }
 };
 
@@ -159,6 +176,65 @@ inline std::vector<lib::Packet> buildBatch(const EncCase& c)
     for (const auto& r : c.packets)
         out.push_back(buildPacket(r, c.version));
     return out;
+}
+
+// runs the case's earlier encode calls on the encoder (ids already configured); their output is not inspected here
+inline void runPriorCalls(lib::Encoder& enc, const EncCase& c)
+{
+    for (const auto& call : c.prior)
+    {
+        std::vector<lib::Packet> batch;
+        for (const auto& r : call.packets)
+            batch.push_back(buildPacket(r, call.version));
+        enc.encode(batch.begin(), batch.end(), lib::DataContext{call.minB, call.maxB});
+    }
+}
+
+// adds 0..3 earlier calls (other configurations, versions, message types) to half of the cases
+inline rc::Gen<EncCase> withPriorCalls(rc::Gen<EncCase> base, const EncGenParams& params)
+{
+    return rc::gen::exec([base, params]() {
+        EncCase c = *base;
+        if (*range<int>(0, 1) == 0)
+            return c;
+        EncGenParams p = params;
+        p.maxBatch = 4;
+        p.frameBudget = 2000;
+        p.allowEmpty = true;
+        int n = *range<int>(1, 3);
+        for (int i = 0; i < n; ++i)
+        {
+            EncCase h = *genEncCase(p);
+            EncCall call;
+            call.version = h.version;
+            call.minB = h.minB;
+            call.maxB = h.maxB;
+            call.packets = h.packets;
+            // bias: the earlier call used a larger / the same frame size and ended with the message type the case starts with
+            int bias = *range<int>(0, 3);
+            if (bias == 0 && c.maxB < 60000)
+            {
+                call.maxB = c.maxB + *range<uint32_t>(1, 2000);
+                call.minB = std::min(call.minB, call.maxB);
+            }
+            else if (bias == 1)
+            {
+                call.maxB = c.maxB;
+                call.minB = std::min(call.minB, call.maxB);
+            }
+            if (!call.packets.empty() && !c.packets.empty() && *range<int>(0, 1))
+            {
+                call.packets.back().kind = c.packets.front().kind;
+                call.packets.back().msgType = c.packets.front().msgType;
+                call.packets.back().ptype = c.packets.front().ptype;
+                call.packets.back().len = std::min(call.packets.back().len, PacketRecipe::maxLen(call.packets.back().kind));
+                if (call.packets.back().kind == rkGeneric && call.packets.back().len == 0)
+                    call.packets.back().len = 1;
+            }
+            c.prior.push_back(call);
+        }
+        return c;
+    });
 }
 
 // classification shared by C01 / C07 / C08
